@@ -157,7 +157,7 @@ def main(argv):
                "for M in {Serial, OpenMP, CUDA, Foo}; a few layers are deliberately not dictionaries.  Non-trivial: a device was "
                "created or a layering function returned a value; distinct by SHA-1.")
     ck.assumptions = ["only the Serial and OpenMP modes are enabled in the build under test", "mode and object names contain no '/' or '\\'"]
-    ck.translate(["gen_hash"])
+    ck.translate(["gen_hash", "gen_json"])
     ck.prove("C26")
     hb = ck.harness("h_props")
     db = ck.driver("drv_json")
